@@ -1,6 +1,6 @@
 (* Completeness, soundness, uniqueness and totality of path proofs (PathProof.v). *)
 From Coq Require Import List Bool Arith NArith Lia.
-From Nomt Require Import Base Hash Trie Result PathProof.
+From Nomt Require Import Base Hash Trie Result PathProof Base_proofs Trie_proofs.
 Import ListNotations.
 
 (* ------------------------------------------------------------------------------------ *)
@@ -190,18 +190,16 @@ Proof.
   - simpl in Hd. destruct t as [|k0 v0|l r]; try discriminate.
     simpl length in Hp.
     destruct (skipn d k) as [|b0 rest] eqn:Es; [simpl in Hp; discriminate|].
-    simpl in Hp. inversion Hp as [[Hb Hrest]]. subst b0.
+    simpl in Hp. injection Hp as Hb Hrest. subst b0.
     apply skipn_cons_inv in Es. destruct Es as [Hbit Hsk].
     rewrite <- Hsk in Hrest.
     simpl walk. rewrite Hbit. simpl length.
     replace (d + S (length path)) with (S d + length path) by lia.
     destruct b.
     + rewrite (IH r t' k (S d) Hd Hrest).
-      destruct (walk H t' k (S d + length path)) as [s tm]. simpl.
-      rewrite Hrest. reflexivity.
+      destruct (walk H t' k (S d + length path)) as [s tm]. reflexivity.
     + rewrite (IH l t' k (S d) Hd Hrest).
-      destruct (walk H t' k (S d + length path)) as [s tm]. simpl.
-      rewrite Hrest. reflexivity.
+      destruct (walk H t' k (S d + length path)) as [s tm]. reflexivity.
 Qed.
 
 Lemma sib_hashes_length : forall (H : Hasher) path t t',
@@ -233,7 +231,7 @@ Proof.
   apply Nat.ltb_ge in E1.
   assert (Hm1 : Nat.min (length kp) 256 <= length kp) by apply Nat.le_min_l.
   assert (Hm2 : Nat.min (length kp) 256 <= 256) by apply Nat.le_min_r.
-  repeat split; try reflexivity; try lia. exact E2.
+  repeat split; try reflexivity; try lia.
 Qed.
 
 Lemma vp_path_length : forall (H : Hasher) (p : path_proof H) kp root vp,
@@ -358,4 +356,123 @@ Proof.
   constructor; simpl.
   - intros a b c d Hh. inversion Hh. split; reflexivity.
   - intros k v k' v' Hh. inversion Hh. split; reflexivity.
+Qed.
+
+(* ------------------------------------------------------------------------------------ *)
+(* C05: every key has a verifying, truthful path proof                                   *)
+(* ------------------------------------------------------------------------------------ *)
+
+Theorem C05_complete : forall (H : Hasher), HasherOK H ->
+  forall n S k, n <= 256 -> wf n S -> length k = n ->
+  let p := canonical_proof H n S k in
+  exists vp, verify H p k (root_n H n S) = Ok vp /\
+    (forall v, get S k = Some v ->
+       confirm_value H vp k v = Ok true /\ confirm_nonexistence H vp k = Ok false) /\
+    (get S k = None -> confirm_nonexistence H vp k = Ok true) /\
+    length (pp_siblings p) <= n.
+Proof.
+  intros H OK n S k Hn Hwf Hk p. subst p. unfold canonical_proof.
+  destruct (walk H (mk n 0 S) k 0) as [sibs tm] eqn:Ew.
+  destruct (mk_walk H n S k sibs tm Hwf Hk Ew) as [Hls Htm].
+  assert (Hle : 0 + length sibs <= length k) by lia.
+  pose proof (walk_hash_up H _ k 0 sibs tm Ew Hle) as Hup.
+  change (skipn 0 k) with k in Hup.
+  unfold verify, hash_path. cbn [pp_siblings pp_terminal].
+  assert (E1 : Nat.ltb (Nat.min (length k) 256) (length sibs) = false).
+  { apply Nat.ltb_ge. rewrite Hk. rewrite Nat.min_l by lia. lia. }
+  rewrite E1. rewrite Hup.
+  assert (E2 : node_eqb H (hash H (mk n 0 S)) (root_n H n S) = true).
+  { apply (eqb_ok H OK). reflexivity. }
+  rewrite E2.
+  eexists. split; [reflexivity|].
+  unfold confirm_value, confirm_nonexistence, in_scope. cbn [vp_path vp_terminal].
+  rewrite firstn_length. rewrite Nat.min_l by lia.
+  assert (E3 : Nat.ltb (length k) (length sibs) = false) by (apply Nat.ltb_ge; lia).
+  rewrite E3. rewrite pp_key_eqb_refl. cbn [bind].
+  split; [|split].
+  - intros v Hg. destruct tm as [k' v'|pth].
+    + destruct Htm as [_ [_ Hget]]. rewrite Hg in Hget.
+      destruct (key_eqb k' k); [|discriminate].
+      inversion Hget; subst. rewrite N.eqb_refl. split; reflexivity.
+    + destruct Htm as [_ Hget]. congruence.
+  - intros Hg. destruct tm as [k' v'|pth].
+    + destruct Htm as [_ [_ Hget]]. rewrite Hg in Hget.
+      destruct (key_eqb k' k); [discriminate|]. reflexivity.
+    + reflexivity.
+  - exact Hls.
+Qed.
+
+(* ------------------------------------------------------------------------------------ *)
+(* C08: a verified path proof only confirms true statements                              *)
+(* ------------------------------------------------------------------------------------ *)
+
+Theorem path_sound : forall (H : Hasher), HasherOK H -> HasherCF H ->
+  forall n S (p : path_proof H) kp vp, wf n S ->
+  verify H p kp (root_n H n S) = Ok vp ->
+  forall k, length k = n ->
+    (forall v, confirm_value H vp k v = Ok true -> get S k = Some v) /\
+    (forall v, confirm_value H vp k v = Ok false -> get S k <> Some v) /\
+    (confirm_nonexistence H vp k = Ok true -> get S k = None) /\
+    (confirm_nonexistence H vp k = Ok false -> get S k <> None).
+Proof.
+  intros H OK CF n S p kp vp Hwf Hv k Hk.
+  unfold root_n in Hv.
+  pose proof (verify_ok_inv H p kp _ vp Hv) as [_ [_ [_ [_ [Hterm _]]]]].
+  assert (Hcore : forall u, in_scope H vp k = Ok u ->
+     get S k = match pp_terminal p with
+               | TLeaf a b => if key_eqb a k then Some b else None
+               | TTerm _ => None
+               end).
+  { intros u Hi. pose proof (verified_walk H OK CF _ p kp vp k u Hv Hi) as Hw.
+    destruct (mk_walk H n S k _ _ Hwf Hk Hw) as [_ Htm].
+    destruct (pp_terminal p) as [a b|pth].
+    - destruct Htm as [_ [_ Hg]]. exact Hg.
+    - destruct Htm as [_ Hg]. exact Hg. }
+  unfold confirm_value, confirm_nonexistence.
+  destruct (in_scope H vp k) as [u|e|] eqn:Ei; cbn [bind].
+  - specialize (Hcore u eq_refl). rewrite Hterm, Hcore.
+    destruct (pp_terminal p) as [a b|pth].
+    + destruct (key_eqb a k) eqn:Ek; cbn [andb negb].
+      * split; [|split; [|split]].
+        -- intros v Hc. inversion Hc as [Hc']. apply N.eqb_eq in Hc'. subst. reflexivity.
+        -- intros v Hc. inversion Hc as [Hc']. apply N.eqb_neq in Hc'. congruence.
+        -- intros Hc. discriminate.
+        -- intros _. discriminate.
+      * split; [|split; [|split]].
+        -- intros v Hc. discriminate.
+        -- intros v _. discriminate.
+        -- intros _. reflexivity.
+        -- intros Hc. discriminate.
+    + split; [|split; [|split]].
+      * intros v Hc. discriminate.
+      * intros v _. discriminate.
+      * intros _. reflexivity.
+      * intros Hc. discriminate.
+  - repeat split; intros; discriminate.
+  - repeat split; intros; discriminate.
+Qed.
+
+(* uniqueness: a verified proof for a key carries the canonical siblings and terminal *)
+Theorem path_proof_unique : forall (H : Hasher), HasherOK H -> HasherCF H ->
+  forall n S (p : path_proof H) k vp, wf n S -> length k = n ->
+  verify H p k (root_n H n S) = Ok vp ->
+  pp_siblings p = pp_siblings (canonical_proof H n S k) /\
+  match pp_terminal p, pp_terminal (canonical_proof H n S k) with
+  | TLeaf a b, TLeaf a' b' => a = a' /\ b = b'
+  | TTerm _, TTerm _ => True
+  | _, _ => False
+  end.
+Proof.
+  intros H OK CF n S p k vp Hwf Hk Hv.
+  unfold root_n in Hv.
+  assert (Hi : in_scope H vp k = Ok tt).
+  { pose proof (verify_ok_inv H p k _ vp Hv) as [H1 [_ [_ [H4 _]]]].
+    unfold in_scope. rewrite H4. rewrite firstn_length, Nat.min_l by lia.
+    assert (E : Nat.ltb (length k) (length (pp_siblings p)) = false)
+      by (apply Nat.ltb_ge; lia).
+    rewrite E. rewrite pp_key_eqb_refl. reflexivity. }
+  pose proof (verified_walk H OK CF _ p k vp k tt Hv Hi) as Hw.
+  unfold canonical_proof. rewrite Hw. cbn [pp_siblings pp_terminal].
+  split; [reflexivity|].
+  destruct (pp_terminal p) as [a b|pth]; auto.
 Qed.
